@@ -86,7 +86,7 @@ func (c16) Run(c *fw.Ctx) {
 
 	dir := c.TmpDir()
 	// make the scratch path traversable for the uid-dropped child
-	chmodUp(dir, filepath.Dir(filepath.Dir(filepath.Dir(c.Env.Tmp))))
+	chmodUp(dir, filepath.Dir(filepath.Dir(c.Env.Tmp))) // up to and including this run's own vcheck-* directory, never beyond
 	os.Chmod(dir, 0755)
 	l := model.Layout{Archs: []model.Arch{{Step: 1, Points: uint32(20 + r.Intn(20))}, {Step: 5, Points: uint32(20 + r.Intn(10))}, {Step: 30, Points: uint32(12 + r.Intn(10))}}, Method: 2, Xff: 0}
 	now := time.Now().Unix()
